@@ -164,4 +164,47 @@ theorem C12_rejects (cv : Conv) (r : Out) :
     cases hf : cv.f v <;> simp [apply, hf]
   | invalid ms => simp [apply]
 
+/-! ## serialization side: which serializer a class gets (`default_serialization`: walk up the MRO) -/
+
+structure SerReg where
+  /-- the direct base class (single inheritance suffices for the law) -/
+  parent : Cls → Option Cls
+  /-- registered serializer of a class: (converter id, `inherited` flag) -/
+  serializer : Cls → Option (Nat × Bool)
+
+/-- the serializer used for a value whose class is `c`: its own, or the closest ancestor's registered with
+    `inherited=True`; an ancestor's serializer registered with `inherited=False` applies to that ancestor only and
+    does *not* stop the walk (`fuel` bounds the height of the hierarchy) -/
+def serializerOf (r : SerReg) : Nat → Cls → Bool → Option Nat
+  | 0, _, _ => none
+  | n + 1, c, own =>
+      match r.serializer c with
+      | some (k, inh) => if own || inh then some k else
+          (match r.parent c with | some p => serializerOf r n p false | none => none)
+      | none => match r.parent c with | some p => serializerOf r n p false | none => none
+
+/-- a class with its own serializer uses it -/
+theorem C12_own_serializer (r : SerReg) (n : Nat) (c : Cls) (k : Nat) (inh : Bool) (h : r.serializer c = some (k, inh)) :
+    serializerOf r (n + 1) c true = some k := by
+  simp [serializerOf, h]
+
+/-- **inheritance**: a subclass without a serializer gets what its parent's subclasses inherit -/
+theorem C12_inherits (r : SerReg) (n : Nat) (c p : Cls) (hs : r.serializer c = none) (hp : r.parent c = some p) (own : Bool) :
+    serializerOf r (n + 1) c own = serializerOf r n p false := by
+  simp [serializerOf, hs, hp]
+
+/-- a serializer registered with `inherited=False` on an intermediate class is skipped by the subclasses of that class:
+    they inherit from further up -/
+theorem C12_not_inherited_is_skipped (r : SerReg) (n : Nat) (b a : Cls) (k : Nat)
+    (hb : r.serializer b = some (k, false)) (hp : r.parent b = some a) :
+    serializerOf r (n + 1) b false = serializerOf r n a false := by
+  simp [serializerOf, hb, hp]
+
+/-- the three-level witness: `A` (inherited serializer 1) <- `B` (own serializer 2, `inherited=False`) <- `C` (none):
+    `B` uses 2, `C` uses 1 -/
+def regABC : SerReg :=
+  { parent := fun c => if c = 2 then some 1 else if c = 1 then some 0 else none,
+    serializer := fun c => if c = 0 then some (1, true) else if c = 1 then some (2, false) else none }
+example : serializerOf regABC 5 1 true = some 2 ∧ serializerOf regABC 5 2 true = some 1 ∧ serializerOf regABC 5 0 true = some 1 := by decide
+
 end Api.Conv
